@@ -44,3 +44,38 @@ Theorem C14_fresh_ids_are_a_prefix_of_the_free_list :
     exists n, fresh_ids reqs outs = firstn n free.
 Proof. exact engine_no_carry_fresh. Qed.
 Print Assumptions C14_fresh_ids_are_a_prefix_of_the_free_list.
+
+(* the location table (which leaves the surplus unplaced when full) and the switch editor, same statement: both orders
+   give the same verdict, the same list of new ids, the same occupied slots and the same outcomes for the index-less
+   objects (in particular the same number left unplaced).  Before the fixes 620b222 / 7e75338 this was false: with one
+   ordinary slot left, a batch claiming that slot and slot 64 kept both or only one depending on the order; a switch
+   without an ID could take the ID another switch of the batch carried. *)
+Theorem C14_location_slots_order_independent :
+  forall existing ks ks' n,
+    Permutation ks ks' -> NoDup ks -> (forall k, In k ks -> ~ In k existing) ->
+    match add_locations existing (map RCarry ks ++ repeat RFresh n),
+          add_locations existing (map RCarry ks' ++ repeat RFresh n) with
+    | Ok o, Ok o' =>
+        fresh_ids (map RCarry ks ++ repeat RFresh n) o = fresh_ids (map RCarry ks' ++ repeat RFresh n) o' /\
+        Permutation (placed_ids o) (placed_ids o') /\
+        skipn (length ks) o = skipn (length ks') o'
+    | Raise _, Raise _ => True
+    | _, _ => False
+    end.
+Proof. exact locations_order_independent. Qed.
+Print Assumptions C14_location_slots_order_independent.
+
+Theorem C14_switch_editor_order_independent :
+  forall existing ks ks' n,
+    Permutation ks ks' -> NoDup ks -> (forall k, In k ks -> ~ In k existing) ->
+    match add_switches existing (map RCarry ks ++ repeat RFresh n),
+          add_switches existing (map RCarry ks' ++ repeat RFresh n) with
+    | Ok o, Ok o' =>
+        fresh_ids (map RCarry ks ++ repeat RFresh n) o = fresh_ids (map RCarry ks' ++ repeat RFresh n) o' /\
+        Permutation (placed_ids o) (placed_ids o') /\
+        skipn (length ks) o = skipn (length ks') o'
+    | Raise _, Raise _ => True
+    | _, _ => False
+    end.
+Proof. exact switches_order_independent. Qed.
+Print Assumptions C14_switch_editor_order_independent.
